@@ -617,6 +617,12 @@ def drv_exhaustive(ctx: Ctx, sub: SubCheck):
     for i in range(n):
         ctx.run_case(sub.name, oracle_history, {"ops": [exh_op(i, 0)]})
         ctx.tally.case(sub.name, cls="len_1", nontrivial=CLASSES[i] in ACK_CLASSES)
+    # directed: own S/N counter at the 16-bit boundary (the alphabet above never gets there)
+    for sn0 in (65533, 65534, 65535):
+        for kind in ("rrs", "hstrp"):
+            reg = [exh_op(CLASSES.index("rrs_register"), p) for p in range(4)]
+            ctx.run_case(sub.name, oracle_history, {"ops": [{"k": "init", "handler": kind, "sn": sn0}] + reg})
+            ctx.tally.case(sub.name, cls="directed_sn_counter_boundary", nontrivial=False)
     ctx.tally.exhaustive[sub.name] = True
     ctx.tally.extra["exhaustive_history_length"] = depth
     ctx.tally.notes.append(
